@@ -60,6 +60,7 @@ type SchedD struct {
 	DelaySteps int    `json:"delay_steps,omitempty"`
 	Enqueuers  int    `json:"enqueuers,omitempty"`
 	Barrier    bool   `json:"barrier,omitempty"` // bodies of non-failing jobs meet at an N-party barrier
+	CtxKind    int    `json:"ctx_kind,omitempty"` // 1: the scheduler's context is a user-defined context.Context type
 }
 
 // Desc is the complete, self-describing input of one simulated run.
@@ -216,6 +217,9 @@ func Generate(rng *rand.Rand, prop, tier string, gomaxprocs int) *Desc {
 		if s.Barrier {
 			s.CancelMode = CancelNone
 		}
+		if rng.Intn(6) == 0 && s.CancelMode != CancelDeadline {
+			s.CtxKind = 1
+		}
 		if rng.Intn(8) == 0 && !s.Barrier && prop != "C03scale" {
 			s.Enqueuers = 1 + rng.Intn(2)
 		}
@@ -314,6 +318,9 @@ func Generate(rng *rand.Rand, prop, tier string, gomaxprocs int) *Desc {
 					for x := range s.Jobs[i].Deps {
 						s.Jobs[i].Deps[x] += len(pre)
 					}
+					if s.Jobs[i].Ctx == CtxOwnCancelledBy {
+						s.Jobs[i].CtxBy += len(pre)
+					}
 				}
 				s.Jobs = append(pre, s.Jobs...)
 			}
@@ -348,8 +355,36 @@ func Generate(rng *rand.Rand, prop, tier string, gomaxprocs int) *Desc {
 	return d
 }
 
+// Valid reports whether the descriptor is one the generator could have
+// produced as far as the harness's own preconditions go: a barrier workload
+// needs at least Limit jobs that can meet at the barrier (independent,
+// non-failing, not skipped because of their own context). The minimiser must
+// not shrink below that, or it would manufacture the very symptom it preserves.
+func (d *Desc) Valid() bool {
+	for i := range d.Scheds {
+		s := &d.Scheds[i]
+		if !s.Barrier {
+			continue
+		}
+		ok := 0
+		for j, jd := range s.Jobs {
+			if jd.Out != OutOK || len(jd.Deps) != 0 {
+				continue
+			}
+			if jd.Ctx == CtxOwnDead || (jd.Ctx == CtxOwnCancelledBy && jd.CtxBy != j) {
+				continue
+			}
+			ok++
+		}
+		if ok < d.Limit(s) {
+			return false
+		}
+	}
+	return true
+}
+
 func pickPolicy(rng *rand.Rand, prop string) string {
-	names := []string{"uniform", "uniform", "pct", "starve-loop", "starve-result", "caller-first", "caller-last", "slow-worker", "tick-greedy", "worker-first"}
+	names := []string{"uniform", "uniform", "pct", "starve-loop", "starve-result", "caller-first", "caller-last", "slow-worker", "tick-greedy", "worker-first", "submit-all-first"}
 	switch prop {
 	case "C06":
 		names = append(names, "starve-result", "starve-result", "worker-first")
